@@ -25,18 +25,14 @@ ERROR awkward_ListOffsetArray_argsort_strings_impl(
           const char* left_str = &stringdata[stringstarts[left]];
           const char* right_str = &stringdata[stringstarts[right]];
           int cmp = strncmp(left_str, right_str, std::min(left_n, right_n));
-          bool out;
+          // Must be a strict weak ordering (false for equal strings), also when
+          // descending: negating the ascending result would make equal strings
+          // compare "less" both ways, which std::sort does not survive.
           if (cmp == 0) {
-            out = left_n < right_n;
+            return is_ascending ? (left_n < right_n) : (left_n > right_n);
           }
           else {
-            out = cmp < 0;
-          }
-          if (is_ascending) {
-            return out;
-          }
-          else {
-            return !out;
+            return is_ascending ? (cmp < 0) : (cmp > 0);
           }
         };
 
